@@ -33,6 +33,7 @@ var assumptions = []string{
 	"no symlinks under the served directory",
 	"request paths start with '/' (net/http guarantees it for GET and HEAD)",
 	"an index-less directory without trailing slash may be redirected or left alone (the statement allows both)",
+	"'redirected to their slash-terminated form and then served through the index file' is read as two responses: the redirect itself carries no file content (clause redirect-with-content)",
 	"the fixture lives under the run's TMPDIR (the driver points it into /verif/.work)",
 }
 
